@@ -491,3 +491,59 @@ func verif_TCPMuxProxy_httpConnectListen(pxy *TCPMuxProxy, domain, routeByHTTPUs
 		verif.Ensures(len(pxy.listeners) == n0, "nothing_recorded_on_failure")
 	}
 }
+
+// ---------------------------------------------------------------- C01: the server side of a TCP-class tunnel
+
+const (
+	evJoin      = "golib/io.Join"
+	evEncS      = "golib/io.WithEncryption"
+	evCompS     = "golib/io.WithCompressionFromPool"
+	evPoolConn  = "BaseProxy).GetWorkConnFromPool"
+	evUserPlugn = "Manager).NewUserConn"
+)
+
+// handleUserTCPConnection: "mirrored wrapper order (encrypt next to the wire,
+// compress above it, limiter at the far end)" and "a connection made to one
+// proxy's public endpoint is bridged to that proxy's backend and to no other":
+// the user connection is joined with a work connection obtained from THIS
+// proxy's pool (whose StartWorkConn names this proxy, see GetWorkConnFromPool);
+// encryption, keyed by the server token, sits directly on the work connection
+// iff the proxy asks for it; compression sits directly above that iff asked
+// for; nothing else is in the path except the byte-preserving limiter. The
+// user connection is closed on every path, the work connection whenever one
+// was obtained.
+//
+//verif:contract (*~/server/proxy.BaseProxy).handleUserTCPConnection
+//verif:props C01
+func verif_handleUserTCPConnection(pxy *BaseProxy, userConn net.Conn) {
+	cfg := pxy.configurer.GetBaseConfig()
+	enc, comp := cfg.Transport.UseEncryption, cfg.Transport.UseCompression
+	token := pxy.serverCfg.Auth.Token
+	limited := pxy.limiter != nil
+	verif.ResetEvents()
+	pxy.handleUserTCPConnection(userConn)
+	verif.Ensures(verif.CalledWith("Conn).Close", 0, userConn), "user_connection_closed_on_every_path")
+	if verif.Called(evJoin) {
+		wc := verif.Ret[net.Conn](evPoolConn, 0)
+		verif.Ensures(verif.CalledWith(evPoolConn, 0, pxy) && verif.RetErr(evPoolConn, 1) == nil, "joined_with_a_work_connection_of_this_proxy")
+		verif.Ensures(verif.RetErr(evUserPlugn, 1) == nil, "joined_only_if_plugins_agree")
+		verif.Ensures(verif.Called(evEncS) == enc && verif.Called(evCompS) == comp, "layers_iff_configured")
+		var below any = wc
+		if enc {
+			verif.Ensures(verif.Same(verif.NthArg[any](evEncS, 0, 0), below) && verif.CalledWith(evEncS, 1, []byte(token)), "encryption_directly_on_the_work_connection_keyed_by_token")
+			below = verif.Ret[any](evEncS, 0)
+		}
+		if comp {
+			verif.Ensures(verif.Same(verif.NthArg[any](evCompS, 0, 0), below), "compression_directly_above")
+			below = verif.Ret[any](evCompS, 0)
+		}
+		if !limited {
+			verif.Ensures(verif.Same(verif.NthArg[any](evJoin, 0, 0), below), "top_of_the_stack_is_joined")
+		}
+		verif.Ensures(verif.Same(verif.NthArg[any](evJoin, 0, 1), any(userConn)), "joined_with_this_user_connection")
+		verif.Ensures(verif.CallCount(evJoin) == 1, "joined_once")
+	}
+	if verif.Called(evPoolConn) && verif.RetErr(evPoolConn, 1) == nil {
+		verif.Ensures(verif.CalledWith("Conn).Close", 0, verif.Ret[net.Conn](evPoolConn, 0)), "work_connection_closed_when_done")
+	}
+}
